@@ -18,7 +18,9 @@ import (
 // layout (base_0 = 1, base_{i+1} = base_i + len_i + 1) and line/column by
 // counting line feeds in the independently normalised content.
 
-var c11alpha = []string{"a", "b", "\n", "\r", "\r\n", " ", "é", "😀", "\n\n", "\r\r\n", "x"}
+// (form feed, vertical tab, tab, NUL and the Unicode line / paragraph separators and NEL are ordinary characters of a
+// line: only a line feed - after CRLF normalisation - starts a new one)
+var c11alpha = []string{"a", "b", "\n", "\r", "\r\n", " ", "é", "😀", "\n\n", "\r\r\n", "x", "\f", "\t", "\v", "\x00", "\u2028", "\u2029", "\u0085", "\f\n", "a\fb"}
 
 // custom parsley.File implementations of the user: value types (FileSet.AddFile takes the interface). c11genFile is a
 // comparable value - two generated chunks with the same name and length are EQUAL Go values -, c11tableFile carries a
